@@ -67,6 +67,7 @@ var requiresTable = []reqRow{
 	{"(*internal/pkg/table.ROATable).Delete", lkShared, locks.W, "ROA table is mutated only in the exclusive management context"},
 	{"(*internal/pkg/table.ROATable).DeleteAll", lkShared, locks.W, "ROA table is mutated only in the exclusive management context"},
 	{"(*pkg/server.BgpServer).getBestFromLocalCallbackLocked", lkRR, locks.R, "caller holds the peer's route-refresh lock"},
+	{"pkg/server.needToAdvertise", lkRR, locks.R, "the 'is this peer being advertised to' test must be atomic with the bookkeeping it guards: PeerDown publishes Idle and then clears the bookkeeping under the exclusive route-refresh lock"},
 	{"(*internal/pkg/table.Policy).Apply", lkPolicy, locks.R, "policy, statement and set objects are edited in place under the policy lock: an evaluation must see one configuration"},
 	{"(*internal/pkg/table.Statement).Apply", lkPolicy, locks.R, "policy, statement and set objects are edited in place under the policy lock: an evaluation must see one configuration"},
 }
